@@ -210,6 +210,11 @@ func c08Child(spec string) {
 			in, mut = replayInputs[i], "replay"
 		} else {
 			in, mut = g.Mutate(seeds[g.R.Intn(len(seeds))])
+			if i%40 == 17 {
+				// a valid request that has passed hundreds of elements, each with a name of its own:
+				// over a run the proxy sees tens of thousands of distinct Via hosts
+				in, mut = c08ManyVia(g, w, i), "many-distinct-via-hosts"
+			}
 		}
 		if len(in) > 65535 {
 			in = in[:65535]
@@ -299,6 +304,18 @@ func (c *c11Conn0) RemoteAddr() net.Addr {
 func (c *c11Conn0) SetDeadline(t time.Time) error      { return nil }
 func (c *c11Conn0) SetReadDeadline(t time.Time) error  { return nil }
 func (c *c11Conn0) SetWriteDeadline(t time.Time) error { return nil }
+
+func c08ManyVia(g *sip.Gen, w, i int) []byte {
+	var b strings.Builder
+	fmt.Fprintf(&b, "OPTIONS sip:svc.verif.test SIP/2.0\r\n")
+	n := 150 + g.R.Intn(200)
+	for k := 0; k < n; k++ {
+		name := []string{"Via", "v"}[k%2]
+		fmt.Fprintf(&b, "%s: SIP/2.0/UDP e%d-%d-%d.transit.example:%d;branch=z9hG4bKmv%d-%d\r\n", name, w, i, k, 5060+k%7, i, k)
+	}
+	fmt.Fprintf(&b, "Max-Forwards: 70\r\nFrom: <sip:a@transit.example>;tag=mv%d\r\nTo: <sip:b@callee.example>\r\nCall-ID: mv-%d-%d@verif\r\nCSeq: 1 OPTIONS\r\nContent-Length: 0\r\n\r\n", i, w, i)
+	return []byte(b.String())
+}
 
 func c08Hash(b []byte) uint32 {
 	var h uint32 = 2166136261
